@@ -21,7 +21,9 @@ RULE = ('histories = random interleavings (length <= 6) of option updates (tempe
         'coefficient re-assignments and forward passes on (a) stand-alone MPS per-layer quantizers '
         'with 1..8 candidates, per-channel quantizers up to 8x16, SuperNet combiners with 2..12 '
         'branches; (b) whole MPS models (per-layer and per-channel) and SuperNet models, ending '
-        'with summary() and export().  Coefficients have pairwise gaps >= 0.05.  Every sampling '
+        'with summary() and export() (in a third of them after re-assigning the coefficients without '
+        'a new forward pass).  Coefficients have pairwise gaps >= 0.05.  The sampler that actually '
+        'runs is also compared with the one configured by the history (last writer wins).  Every sampling '
         'call is one event checked offline.  Non-trivial: an event with >= 2 alternatives whose '
         'arg-max is not alternative 0; distinct = hash of (object kind, sampler, mode, hard, '
         'rounded temperature, alpha).')
@@ -30,7 +32,8 @@ ASSUMPTIONS = [
     'under disable_sampling nothing is sampled: the only claim is that theta is left bit-identical',
     'SuperNet summary() is compared with export in eval / non-Gumbel mode only',
 ]
-REQUIRED_MONITORS = ['c10.event', 'c10.onehot_rule', 'c10.summary_export']
+REQUIRED_MONITORS = ['c10.event', 'c10.onehot_rule', 'c10.summary_export',
+                     'c10.configured_sampler']
 MIN_NONTRIVIAL = {'quick': 500, 'thorough': 8000}
 EXHAUSTIVE = {'quick': False, 'thorough': False}
 
@@ -62,7 +65,12 @@ def worker_setup(ctx):
                 return orig(self)
             before = self.theta_alpha.detach().clone() if isinstance(
                 getattr(self, 'theta_alpha', None), torch.Tensor) else None
-            res = orig(self)
+            depth = _flags.get('depth', 0)
+            _flags['depth'] = depth + 1
+            try:
+                res = orig(self)
+            finally:
+                _flags['depth'] = depth
             temp = getattr(self, 'temperature', None)
             if temp is None:
                 temp = getattr(self, 'softmax_temperature', None)
@@ -70,7 +78,9 @@ def worker_setup(ctx):
                          'training': bool(self.training), 'hard': bool(self.hard_softmax),
                          'temperature': float(temp),
                          'alpha': self.alpha.detach().clone(), 'before': before,
-                         'after': self.theta_alpha.detach().clone()})
+                         'after': self.theta_alpha.detach().clone(),
+                         'outermost': depth == 0,
+                         'configured': dict(getattr(self, '_vf_cfg', None) or {}) or None})
             return res
         setattr(cls, fname, monitored)
     for f in ('sample_alpha_sm', 'sample_alpha_gs', 'sample_alpha_none'):
@@ -87,6 +97,14 @@ def check_events(ctx, events):
         kind, sampler = ev['kind'], ev['sampler']
         d = {'kind': kind, 'sampler': sampler, 'training': ev['training'], 'hard': ev['hard'],
              'temperature': ev['temperature'], 'alpha': ev['alpha'], 'theta': ev['after']}
+        cfg = ev.get('configured')
+        if cfg is not None and ev.get('outermost', True):
+            ctx.mon('c10.configured_sampler')
+            want = 'none' if cfg.get('disabled') else ('gs' if cfg.get('gumbel') else 'sm')
+            if sampler != want or bool(cfg.get('hard')) != ev['hard']:
+                ctx.violation('sampling-rule', dict(
+                    d, sig='configured-vs-actual-sampler:' + kind, configured=cfg,
+                    expected_sampler=want))
         if sampler == 'none':
             if ev['before'] is None or not torch.equal(ev['before'], ev['after']):
                 ctx.violation('sampling-rule', dict(d, sig='disabled-sampling-changed-theta'))
@@ -167,6 +185,8 @@ def run_object_history(case, ctx):
         xs = [torch.randn(2, 3) for _ in range(n)]
         fwd = lambda: q(xs)
     set_alpha(q, rng)
+    if k != 'combiner':
+        q._vf_cfg = {'hard': False, 'gumbel': False, 'disabled': False}
     _log.clear()
     _flags['record'] = True
     try:
@@ -175,6 +195,9 @@ def run_object_history(case, ctx):
             if r < 0.3 and k != 'combiner':
                 o = random_options(rng)
                 q.update_softmax_options(**o)
+                for kk, vv in o.items():
+                    if kk != 'temperature':
+                        q._vf_cfg[{'disable_sampling': 'disabled'}.get(kk, kk)] = vv
                 hist.append(('options', o))
             elif r < 0.3:
                 if rng.random() < 0.5:
@@ -226,15 +249,19 @@ def run_model_history(case, ctx):
         w_prec = rng.choice(mpslib.PRECISION_TUPLES) if not pc else rng.choice(
             [(0, 2, 4, 8), (2, 4, 8), (8, 0, 2)])
         try:
+            g0, h0 = rng.random() < 0.3, rng.random() < 0.3
             model, nas, xs = mpslib.convert_mps(prog, case['seed'], w_prec,
                                                 rng.choice(mpslib.PRECISION_TUPLES),
-                                                per_channel=pc, gumbel=rng.random() < 0.3,
-                                                hard=rng.random() < 0.3)
+                                                per_channel=pc, gumbel=g0, hard=h0)
+            for _k, names, q in mpslib.unique_qtz(nas):
+                if any(not n.endswith('in_mps_quantizer') for n in names):
+                    q._vf_cfg = {'hard': h0, 'gumbel': g0, 'disabled': False}
         except Exception as e:
             ctx.skip(type(e).__name__ + ': ' + str(e)[:80])
             return
         x = mpslib.in_range_inputs(prog, case['seed'], 2)
         assign = mpslib.assign_coefficients(nas, rng)
+        init_cfg = None
     _log.clear()
     _flags['record'] = True
     try:
@@ -247,6 +274,12 @@ def run_model_history(case, ctx):
                 else:
                     o = random_options(rng)
                 nas.update_softmax_options(**o)
+                if k != 'supernet':
+                    for _k, names, q in mpslib.unique_qtz(nas):
+                        if hasattr(q, '_vf_cfg'):
+                            for kk, vv in o.items():
+                                if kk != 'temperature':
+                                    q._vf_cfg[{'disable_sampling': 'disabled'}.get(kk, kk)] = vv
                 hist.append(('options', o))
             elif r < 0.5:
                 nas.train(rng.random() < 0.5)
@@ -255,10 +288,28 @@ def run_model_history(case, ctx):
                 with torch.no_grad():
                     nas(x)
                 hist.append(('forward',))
-        # end of history: an eval-mode forward, then summary / export against R-select
-        nas.eval()
-        with torch.no_grad():
-            nas(x)
+        # end of history: summary / export against R-select.  In a third of the histories the
+        # coefficients are re-assigned AFTER the last forward and the mode is left as it is
+        # (non-Gumbel): what is reported / exported must follow the current raw coefficients
+        stale_probe = (case['seed'] // 3) % 3 == 0      # (decorrelated from the model kind)
+        if stale_probe:
+            nas.train((case['seed'] // 9) % 2 == 0)
+            with torch.no_grad():
+                nas(x)
+            if k == 'supernet':
+                if desc.get('gumbel'):      # Gumbel noise in train mode: compared in eval only
+                    nas.eval()
+                winners = [(w + 1 + rng.randrange(max(1, len(st['branches']) - 1))) %
+                           len(st['branches']) for st, w in zip(snlib.sn_blocks(desc), winners)]
+                snlib.set_winners(nas, desc, winners, rng)
+            else:
+                assign = mpslib.assign_coefficients(nas, rng)
+            hist.append(('coefficients-reassigned-after-last-forward',
+                         'train' if nas.training else 'eval'))
+        else:
+            nas.eval()
+            with torch.no_grad():
+                nas(x)
         summ = nas.summary()
     finally:
         _flags['record'] = False
